@@ -31,8 +31,13 @@
                     parameter is re-evaluated after the run (both as in `Params.evalOne`);
        every other parameter by the program-free rule `Closed.parVal` (so dependent function parameters, which come later in
        the execution order, are evaluated from the overwritten value).
-  The loop itself (`simulateEv`) is `Closed`'s loop with the parameter policy as an argument; `Closed.simulateN` is the
-  instance `ev = Closed.evalPars` (proved in C13Closed.lean).
+  The loop itself (`simulateEv`) is `Closed`'s loop with the parameter policy as an argument (values of an index `ev`, Euler step
+  of the derivative parameters `adv`; loop state = stocks and derivative values); `Closed.simulateN` is the instance
+  `ev = Closed.evalPars`, `adv = Closed.nextD` (proved in C13Closed.lean).
+  Skip windows and derivative parameters of the base specification are followed: inside its window a targeted parameter still
+  takes the program value while programs are active (`Params.evalOne` with `skip`), an untargeted one the scenario value; the
+  rate of a derivative parameter is evaluated on the values so far, overwritten ones included (`advStepP`).  A covout ON a
+  derivative parameter (the code overwrites `_dx`) is refused by `wfPSpec`.
 
   Driver: `cpsim <budget bits> <pspec>` (memoised, bit budget as `csim`), `cpsimref <pspec>` (= `simulate` verbatim, tiny cases),
   `cpwf <pspec>`.
@@ -44,28 +49,32 @@ open Atomica Atomica.Engine Atomica.Closed
 
 abbrev Trajectory := List (Stock × Flow)
 
-/-! ### the closed loop over an arbitrary parameter policy `ev : index → state → values` -/
+/-! ### the closed loop over an arbitrary parameter policy
+    `ev : index → stocks → derivative values → values` and `adv : index → stocks → derivative values → next derivative values`
+    (loop state: the stocks `x` and the current values `d` of the derivative parameters) -/
+
+abbrev Policy := Nat → Stock → Vals → Vals
 
 /-- `update_pars(); update_links()` at index `i`, `update_comps()` to index `i+1` -/
-def stepEv (net : Net) (dt : Rat) (ev : Nat → Stock → Vals) (i : Nat) (x : Stock) : Option (Flow × Stock) :=
-  if linkParsDefined net (ev i x) then Engine.step net dt (pvOf (ev i x)) x else none
+def stepEv (net : Net) (dt : Rat) (ev : Policy) (i : Nat) (x : Stock) (d : Vals) : Option (Flow × Stock) :=
+  if linkParsDefined net (ev i x d) then Engine.step net dt (pvOf (ev i x d)) x else none
 
-def runEv (net : Net) (dt : Rat) (ev : Nat → Stock → Vals) : Nat → Nat → Stock → Option Trajectory
-  | _, 0, _ => some []
-  | i, n + 1, x =>
-      match stepEv net dt ev i x with
+def runEv (net : Net) (dt : Rat) (ev adv : Policy) : Nat → Nat → Stock → Vals → Option Trajectory
+  | _, 0, _, _ => some []
+  | i, n + 1, x, d =>
+      match stepEv net dt ev i x d with
       | none => none
       | some (fl, x') =>
-          match runEv net dt ev (i + 1) n x' with
+          match runEv net dt ev adv (i + 1) n x' (adv i x d) with
           | none => none
           | some rest => some ((x, fl) :: rest)
 
 /-- `update_pars(); flush_junctions()` on the initial stocks -/
-def startEv (net : Net) (ev : Nat → Stock → Vals) (init : Stock) : Option Stock :=
-  if linkParsDefined net (ev 0 init) then flushAll net (pvOf (ev 0 init)) init net.jorder else none
+def startEv (net : Net) (ev : Policy) (init : Stock) (d0 : Vals) : Option Stock :=
+  if linkParsDefined net (ev 0 init d0) then flushAll net (pvOf (ev 0 init d0)) init net.jorder else none
 
-def simulateEv (net : Net) (dt : Rat) (ev : Nat → Stock → Vals) (init : Stock) (n : Nat) : Option Trajectory :=
-  (startEv net ev init).bind (fun x0 => runEv net dt ev 0 n x0)
+def simulateEv (net : Net) (dt : Rat) (ev adv : Policy) (init : Stock) (d0 : Vals) (n : Nat) : Option Trajectory :=
+  (startEv net ev init d0).bind (fun x0 => runEv net dt ev adv 0 n x0 d0)
 
 /-! ### specification of the program layer -/
 
@@ -161,12 +170,14 @@ def isAgg : ParKind → Bool
 /-- the inputs of `Params.evalOne` for parameter `p` at this index, as the closed loop has computed them -/
 def inpOf (s : PSpec) (t : Rat) (x : Stock) (cv pv : Vals) (p : Nat) (o : Rat) : Params.Inp :=
   { t := t, dt := s.base.dt,
-    data := pv p,
+    -- the stored value before the visit: for a function / aggregation parameter the databook value inserted by `Model.build`
+    -- (it is read only inside the skip window), for a data parameter the value so far
+    data := if isData (s.base.pars p) then pv p else baseVal (s.base.pars p) t,
     hasFcn := !(isData (s.base.pars p)),
     fcn := scaledRaw s.base t x cv pv p,
     mode := if s.post p then .postcompute else .dynamic,
     agg := if isAgg (s.base.pars p).kind then some (scaledRaw s.base t x cv pv p) else none,
-    skip := none,
+    skip := (s.base.pars p).skip,
     active := some ⟨s.start, s.stop⟩,
     inLoop := s.inLoop p,
     outcome := some o,
@@ -184,14 +195,26 @@ def parValO (s : PSpec) (t : Rat) (x : Stock) (cv pv : Vals) (ov : Option (Optio
 def parStepP (s : PSpec) (t : Rat) (x : Stock) (cv : Vals) (out : Nat → Option (Option Rat)) (pv : Vals) (p : Nat) : Vals :=
   setAt pv p (parValO s t x cv pv (out p) p)
 
-/-- all parameter values of time index `i` on stock `x`, programs included -/
-def evalParsP (s : PSpec) (i : Nat) (x : Stock) : Vals :=
+/-- all parameter values of time index `i` on stock `x` with the derivative values `d`, programs included -/
+def evalParsP (s : PSpec) (i : Nat) (x : Stock) (d : Vals) : Vals :=
   let t := Grid.point s.base.start s.base.dt i
-  s.base.porder.foldl (parStepP s t x (evalCharacs s.base x) (progOut s (layerAt s t) x)) (basePars s.base t)
+  s.base.porder.foldl (parStepP s t x (evalCharacs s.base x) (progOut s (layerAt s t) x)) (basePars s.base t d)
+
+/-- one visit with the Euler step of a derivative parameter (`Closed.advStep` with the program-aware rule for the values; the
+    rate of a derivative parameter is its function on the values so far — overwritten ones included) -/
+def advStepP (s : PSpec) (t : Rat) (x : Stock) (cv : Vals) (out : Nat → Option (Option Rat)) (st : Vals × Vals) (p : Nat) : Vals × Vals :=
+  (parStepP s t x cv out st.1 p, if (s.base.pars p).deriv then setAt st.2 p (advVal s.base t x cv st.1 p) else st.2)
+
+def evalParsPD (s : PSpec) (i : Nat) (x : Stock) (d : Vals) : Vals × Vals :=
+  let t := Grid.point s.base.start s.base.dt i
+  s.base.porder.foldl (advStepP s t x (evalCharacs s.base x) (progOut s (layerAt s t) x)) (basePars s.base t d, d)
+
+/-- the values of the derivative parameters at index `i+1` -/
+def nextDP (s : PSpec) (i : Nat) (x : Stock) (d : Vals) : Vals := (evalParsPD s i x d).2
 
 /-- a whole simulation with `n` time points -/
 def simulateN (s : PSpec) (n : Nat) : Option Trajectory :=
-  simulateEv s.base.net s.base.dt (evalParsP s) s.base.init n
+  simulateEv s.base.net s.base.dt (evalParsP s) (nextDP s) s.base.init (initD s.base) n
 
 def simulate (s : PSpec) : Option Trajectory := simulateN s s.base.npts
 
@@ -199,14 +222,14 @@ def simulate (s : PSpec) : Option Trajectory := simulateN s s.base.npts
 
 def targeted (s : PSpec) (p : Nat) : Bool := (findCovout s.covouts p).isSome
 
-/-- as `Closed.okOrder`, and a parameter that a function reads may be evaluated later only if it is a data parameter that no
-    covout targets (a targeted data parameter changes when the loop visits it) -/
+/-- as `Closed.okOrder`, and a parameter that a function reads may be evaluated later only if it is a data (or derivative) parameter
+    that no covout targets (a targeted data parameter changes when the loop visits it) -/
 def okOrderP (s : PSpec) : List Nat → List Nat → Bool
   | _, [] => true
   | done, p :: rest =>
       !(done.contains p)
       && (parRefsOf (kindRefs (s.base.pars p).kind)).all
-            (fun q => (isData (s.base.pars q) && !(targeted s q)) || done.contains q)
+            (fun q => (isFixed (s.base.pars q) && !(targeted s q)) || done.contains q)
       && okOrderP s (p :: done) rest
 
 def depsBeforeP (s : PSpec) : Bool := okOrderP s [] s.base.porder
@@ -215,7 +238,9 @@ def wfPSpec (s : PSpec) : Bool :=
   wfSpec s.base
   && depsBeforeP s
   && s.covouts.all (fun c => decide (c.par < s.base.net.nP) && s.base.porder.contains c.par
-        && c.spec.progs.all (fun ko => decide (ko.1 < s.progs.length)))
+        && c.spec.progs.all (fun ko => decide (ko.1 < s.progs.length))
+        -- a program that targets a derivative parameter overwrites `_dx`, not the value: not modelled
+        && !(s.base.pars c.par).deriv)
   && s.progs.all (fun p => p.targets.all (fun c => decide (c < s.base.net.nC)))
 
 /-! ### driver: wire format
@@ -277,24 +302,26 @@ def pPSpec : P PSpec := do
          post := fun p => (flags.getD p (.other, false, false)).2.2 }
 
 /-- memoised `evalParsP`: coverages and outcomes of the index are computed once, parameters are tabulated (same values) -/
-def evalParsPA (s : PSpec) (i : Nat) (x : Stock) : Array (Option Rat) × List (Option Rat) :=
+def evalParsPA (s : PSpec) (i : Nat) (x : Stock) (d : Vals) : Array (Option Rat) × List (Option Rat) × Array (Option Rat) :=
   let t := Grid.point s.base.start s.base.dt i
   let cv := ofArr (evalCharacsA s.base x)
   let L := layerAt s t
   let covs := if L.active then coverages s.base.net s.base.dt L x else []
   let outs := (Array.range s.base.net.nP).map (fun p => progOutC s L.active covs p)
-  let va := s.base.porder.foldl (fun a p => a.setIfInBounds p (parValO s t x cv (ofArr a) (outs.getD p none) p))
-    ((Array.range s.base.net.nP).map (fun p => baseVal (s.base.pars p) t))
-  (va, covs)
+  let r := s.base.porder.foldl (fun (st : Array (Option Rat) × Array (Option Rat)) p =>
+      (st.1.setIfInBounds p (parValO s t x cv (ofArr st.1) (outs.getD p none) p),
+       if (s.base.pars p).deriv then st.2.setIfInBounds p (advVal s.base t x cv (ofArr st.1) p) else st.2))
+    ((Array.range s.base.net.nP).map (fun p => basePars s.base t d p), (Array.range s.base.net.nP).map d)
+  (r.1, covs, r.2)
 
 def showOpts (l : List (Option Rat)) : String := " ".intercalate (l.map showOptRat)
 
-def loopPA (s : PSpec) (budget : Nat) : Nat → Nat → Array (Array Rat) → List String → List String × Option String
-  | _, 0, _, acc => (acc.reverse, none)
-  | i, n + 1, xa, acc =>
+def loopPA (s : PSpec) (budget : Nat) : Nat → Nat → Array (Array Rat) → Array (Option Rat) → List String → List String × Option String
+  | _, 0, _, _, acc => (acc.reverse, none)
+  | i, n + 1, xa, da, acc =>
       if bitsOf xa > budget then (acc.reverse, some "big") else
       let x := ofTab xa
-      let (va, covs) := evalParsPA s i x
+      let (va, covs, nda) := evalParsPA s i x (ofArr da)
       let v := ofArr va
       if !(linkParsDefined s.base.net v) then (acc.reverse, some "par") else
       match stepA s.base.net s.base.dt (pvOf v) x with
@@ -302,19 +329,20 @@ def loopPA (s : PSpec) (budget : Nat) : Nat → Nat → Array (Array Rat) → Li
       | some (fa, xa') =>
           let sec := showStock s.base.net x ++ " ; " ++ showFlow s.base.net (ofTab fa) ++ " ; " ++ showVals s.base.net.nP v
                      ++ " ; " ++ showOpts covs
-          loopPA s budget (i + 1) n xa' (sec :: acc)
+          loopPA s budget (i + 1) n xa' nda (sec :: acc)
 
 def handleSim (args : List String) : Option String :=
   runP (do
     let budget ← pNat
     let s ← pPSpec
     if !(wfPSpec s) then pure "err wf" else
-    let v0 := ofArr (evalParsPA s 0 s.base.init).1
+    let d0 := (Array.range s.base.net.nP).map (initD s.base)
+    let v0 := ofArr (evalParsPA s 0 s.base.init (ofArr d0)).1
     if !(linkParsDefined s.base.net v0) then pure (reply [] (some "flush")) else
     match flushA s.base.net (pvOf v0) s.base.init with
     | none => pure (reply [] (some "flush"))
     | some xa =>
-        let (secs, stop) := loopPA s budget 0 s.base.npts xa []
+        let (secs, stop) := loopPA s budget 0 s.base.npts xa d0 []
         pure (reply secs stop)) args
 
 /-- reference path: `simulate` exactly as the theorems state it (no memoisation; tiny cases only) -/
@@ -340,6 +368,6 @@ def handleParsRef (args : List String) : Option String :=
     let i ← pNat
     let s ← pPSpec
     if !(wfPSpec s) then pure "err wf" else
-    pure (showVals s.base.net.nP (evalParsP s i s.base.init))) args
+    pure (showVals s.base.net.nP (evalParsP s i s.base.init (initD s.base)))) args
 
 end Atomica.ClosedProg
